@@ -11,24 +11,65 @@
    and on the real Plugin.Do (real Start, rules, limiters map, time_field); after every event the
    harness evaluates the statement on the REAL history and compares the decision.  Two-key histories
    are re-run key by key on fresh instances (keys never share a budget).
+3. Expiry family: the real plugin with a short limiter_expiration and the REAL limiters-map maintenance
+   loop (wall clock); two keys are hit continuously across several map generations with the bucket clock
+   frozen and must stay within their limit in that one bucket, an idle key must be forgotten.  The run
+   is started in the background while TLC works; a run in which the maintenance loop stalled for a whole
+   limiter_expiration is inconclusive (repeated, then infra), never a violation.  TLC checks the same
+   mechanism at design level (Throttle_expiry.cfg: Maintain action, BusyKeyWithinLimit, EvictedOnlyIdle).
 """
 import json
 import os
+import subprocess
 
 import vlib
 
 LEVEL = "model_checking"
 
-MUTANTS = ["lt", "nozero", "rot1", "rotdif", "noremap", "future", "shared", "steal"]
+MUTANTS = ["lt", "nozero", "wipeprev", "rot1", "rotdif", "noremap", "future", "shared", "steal", "nogen"]
+MUTANT_CFG = {"nogen": "Throttle_expiry.cfg"}
 PROPERTY_INVARIANTS = {"NeverOverLimit", "TotalWithinSum", "NoEarlyReject", "Remap", "ValueWithinShare",
-                       "MustRespected", "KeysIndependent"}
+                       "MustRespected", "KeysIndependent", "BusyKeyWithinLimit", "EvictedOnlyIdle"}
+
+
+def start_expiry(ctx, binary, n):
+    out = os.path.join(ctx.scratch, "c16_expiry_%d.json" % n)
+    cmd = [binary, "-test.run", "^TestVerifC16Expiry$", "-test.count=1", "-test.timeout", "120s"]
+    p = subprocess.Popen(cmd, cwd=ctx.scratch, env=ctx.go_env({"VERIF_EXPIRY_OUT": out}),
+                         stdout=subprocess.PIPE, stderr=subprocess.STDOUT, text=True, errors="replace")
+    return p, out
+
+
+def finish_expiry(ctx, binary, p, out):
+    """Returns the result of the first conclusive run (at most 3 runs)."""
+    tries = []
+    for n in range(1, 4):
+        try:
+            txt, _ = p.communicate(timeout=180)
+        except subprocess.TimeoutExpired:
+            p.kill()
+            raise vlib.Infra("C16 expiry family timed out")
+        if p.returncode != 0 or not os.path.exists(out):
+            raise vlib.Infra("C16 expiry family failed rc=%s:\n%s" % (p.returncode, txt[-3000:]))
+        r = json.load(open(out))
+        tries.append({k: r[k] for k in ("conclusive", "why", "max_gen_gap_ms", "span_ms", "generations", "hits")})
+        if r["conclusive"]:
+            r["tries"] = tries
+            return r
+        vlib.log("C16 expiry family inconclusive (%s); repeating" % r["why"])
+        if n < 3:
+            p, out = start_expiry(ctx, binary, n + 1)
+    raise vlib.Infra("C16 expiry family inconclusive 3 times: %s" % json.dumps(tries))
 
 
 def run(ctx):
     thorough = ctx.tier == "thorough"
     cfg = "Throttle_thorough.cfg" if thorough else "Throttle_quick.cfg"
+    binary = ctx.go_test_build("plugin/action/throttle")
+    exp_proc, exp_out = start_expiry(ctx, binary, 1)          # real time, runs while TLC works
     if ctx.replay:
-        cases = [r["case"] for r in json.load(open(ctx.replay))]
+        cases = [r["case"] for r in json.load(open(ctx.replay)) if r["case"].get("s") != "expiry"]
+        cases = cases or [{"s": "ring", "C": 1, "k": 0, "d": 0, "l": [1], "e": [[1, 0, 0, 1, 0, 1, 1, 0]]}]
         total = len(cases)
         res = ctx.tlc_expect_ok("Throttle", "Throttle_mutant.cfg", timeout=300, deadlock=False, workers=4)
     else:
@@ -42,9 +83,10 @@ def run(ctx):
             back = ctx.tlc_expect_ok("Throttle", "Throttle_back.cfg", timeout=600, deadlock=False)
             cases += back.printed
             back.out = ""
+        ctx.tlc_expect_ok("Throttle", "Throttle_expiry.cfg", timeout=600, deadlock=False, workers=8)
         # every spec mutant must be rejected by a property invariant (the oracle is not vacuous)
         for m in MUTANTS:
-            r = ctx.tlc("Throttle", "Throttle_mutant.cfg", timeout=300, deadlock=False, workers=4,
+            r = ctx.tlc("Throttle", MUTANT_CFG.get(m, "Throttle_mutant.cfg"), timeout=300, deadlock=False, workers=4,
                         overrides={"Mut": '"%s"' % m}, name="Throttle/mutant-%s" % m)
             if r.kind != "invariant" or r.violated not in PROPERTY_INVARIANTS:
                 raise vlib.Infra("spec mutant %s is not rejected by a property invariant (%s %s)" %
@@ -56,7 +98,6 @@ def run(ctx):
         for c in cases:
             f.write(json.dumps(c, separators=(",", ":")) + "\n")
     out = os.path.join(ctx.scratch, "c16_out.json")
-    binary = ctx.go_test_build("plugin/action/throttle")
     rc, txt = ctx.run_bin(binary, "^TestVerifC16$", env={"VERIF_CASES": path, "VERIF_OUT": out}, timeout=3000)
     if rc != 0 or not os.path.exists(out):
         raise vlib.Infra("C16 harness failed rc=%s:\n%s" % (rc, txt[-3000:]))
@@ -68,9 +109,12 @@ def run(ctx):
         raise vlib.Infra("harness oracle and specification disagree on %d steps of identical histories: %s" %
                          (st["OracleMismatch"], st["OracleDetail"]))
 
-    ctx.evaluations = st["Steps"]
+    ex = finish_expiry(ctx, binary, exp_proc, exp_out)
+    ctx.extra["expiry_family"] = {k: v for k, v in ex.items() if k != "violations"}
+
+    ctx.evaluations = st["Steps"] + ex["hits"]
     ctx.nontrivial = st["NonTrivial"]
-    ctx.traces_validated = 2 * r["executed"] + st["Projections"]
+    ctx.traces_validated = 2 * r["executed"] + st["Projections"] + 1
     ctx.exhaustive = not ctx.replay
     ctx.drift += st["Drift"]
     ctx.extra["replay_stats"] = st
@@ -84,7 +128,9 @@ def run(ctx):
     for c in cases[:2] + cases[-1:]:
         ctx.sample(c)
     ctx.assumptions += [
-        "in-memory backend; limits >= 0; limiter expiry switched off (limiter_expiration 100000h)",
+        "in-memory backend; limits >= 0; limiter expiry switched off (limiter_expiration 100000h) in the step-by-step "
+        "replay; exercised separately by the real-time expiry family (limiter_expiration 2.5s, real maintenance loop, "
+        "two busy keys and one idle key, one frozen bucket)",
         "the retained window of a key is anchored at the newest clock reading seen with an event of that key",
         "kind size: an event rejected although passed+size would still fit (arrivals are counted) is left open, "
         "as are decisions for unlisted distribution values when only stolen room could admit them",
@@ -99,6 +145,7 @@ def run(ctx):
             vlib.log("MODEL-DRIFT: property=C16 non-monotone clock history differs (%s, %s)" % (m["kind"], m["path"]))
             continue
         recs.append(m)
+    recs += ex.get("violations") or []
     if r.get("by_kind"):
         ctx.extra["mismatches_by_kind"] = r["by_kind"]
     ctx.classify(recs)
